@@ -1,5 +1,4 @@
-import SciVerif.Drive.Util
+import SciVerif.Drive.C19
 open Lean SciVerif.Drive
 
-/-- C19 model driver: not built yet. -/
-def main : IO Unit := serve (fun _ => throw "C19: no model yet")
+def main : IO Unit := serve SciVerif.C19.Drive.handle
